@@ -18,11 +18,17 @@ def NA : Nat := 16   -- addresses printed
 def NC : Nat := 8    -- characteristics printed
 def SNAP_TIMEOUT : Nat := 144  -- RESPONSE_TIMEOUT = 9 s
 
+/-- an entry of the loop's ready queue (`call_soon` order is FIFO across everything) -/
+inductive RItem
+  | soon (p : ObjId)   -- call_soon(_send_events) of connection p
+  | hand               -- call_soon_threadsafe(async_send_event, ...) from a worker thread
+
 structure D where
   s : St := {}
   sweepAt : Option Nat := some SWEEP
   snaps : List (ObjId × Nat) := []   -- snapshot timeout deadlines
   out : Array Out := #[]
+  readyQ : List RItem := []          -- the loop's ready queue, in scheduling order
 
 /-- rebuild every map from finite snapshots so that closures do not pile up -/
 def normObj (o : Obj) : Obj :=
@@ -43,11 +49,23 @@ def normalize (s : St) : St :=
 
 def fire (c : Cfg) (d : D) (e : Ev) : D :=
   let (s', o) := step c d.s e
-  { d with s := normalize s', out := d.out ++ o.toArray }
+  -- whatever the step scheduled on the loop goes to the end of the ready queue
+  let newHand := List.replicate (s'.handoffs.length - d.s.handoffs.length) RItem.hand
+  let newSoon := (List.range s'.nobj).flatMap fun p =>
+    List.replicate ((s'.obj p).soon - (d.s.obj p).soon) (RItem.soon p)
+  { d with s := normalize s', out := d.out ++ o.toArray, readyQ := d.readyQ ++ newHand ++ newSoon }
 
+/-- one loop iteration: the callbacks that are ready now, in order; what they schedule waits -/
 def readyPass (c : Cfg) (d : D) : D :=
-  let evs := (List.range d.s.nobj).flatMap (fun p => List.replicate (d.s.obj p).soon (Ev.soonFlush p))
-  evs.foldl (fire c) d
+  let items := d.readyQ
+  items.foldl (fun d it => match it with
+    | .soon p => fire c d (Ev.soonFlush p)
+    | .hand => fire c d Ev.handOff) { d with readyQ := [] }
+
+/-- loop iterations until nothing is ready -/
+def drainReady (c : Cfg) : Nat → D → D
+  | 0, d => d
+  | fuel + 1, d => if d.readyQ.isEmpty then d else drainReady c fuel (readyPass c d)
 
 inductive Due
   | timer (p : ObjId)
@@ -68,7 +86,7 @@ def nextDue (d : D) (target : Nat) : Option (Nat × Due) :=
 def advance (c : Cfg) (target : Nat) : Nat → D → D
   | 0, d => d
   | fuel + 1, d =>
-    let d := readyPass c d
+    let d := drainReady c 1000 d
     match nextDue d target with
     | none => { d with s := { d.s with now := target } }
     | some (t, due) =>
@@ -137,23 +155,25 @@ def applyOp (c : Cfg) (d : D) (op : Array Json) : R D := do
     let p ← asNat (← arg 1)
     let was := (d.s.obj p).pending
     let d := fire c d (Ev.data p Req.snapshot)
-    let d := readyPass c d
+    let d := drainReady c 1000 d
     if (d.s.obj p).pending && !was then
       pure { d with snaps := d.snaps ++ [(p, d.s.now + SNAP_TIMEOUT)] }
     else pure d
   | "resp_ready" =>
     let p ← asNat (← arg 1)
-    let d := readyPass c d
+    let d := drainReady c 1000 d
     if d.snaps.any (fun x => x.1 = p) then
       let d := { d with snaps := d.snaps.filter (fun x => x.1 ≠ p) }
       pure (fire c d (Ev.respReady p true))
     else pure d
   | "app_set" => pure (fire c d (Ev.appSet (← asNat (← arg 1)) (← asNat (← arg 2))))
+  | "app_set_thread" => pure (fire c d (Ev.appSetWorker (← asNat (← arg 1)) (← asNat (← arg 2))))
   | "lose" => pure (fire c d (Ev.lose (← asNat (← arg 1))))
   | "stop" =>
     if d.s.stopped then pure d else
     let d := readyPass c d
-    pure { fire c d Ev.stop with sweepAt := none }
+    let d := { fire c d Ev.stop with sweepAt := none }
+    pure (drainReady c 1000 d)
   | _ => throw s!"sysev: unknown op {k}"
 
 def jval (v : Option Val) : Json := match v with | none => Json.null | some n => Json.num n
